@@ -552,6 +552,7 @@ fn cancel_waiter(w: &mut World, rec: &mut Recorder, t: usize) {
 /// public API: it must hand out exactly `max` objects concurrently.
 pub fn drain_and_probe(w: &mut World, rec: &mut Recorder) {
     let n = w.cfg.tasks.len();
+    w.flush_lazy();
     let mut guard = 0;
     loop {
         guard += 1;
@@ -559,6 +560,8 @@ pub fn drain_and_probe(w: &mut World, rec: &mut Recorder) {
             break;
         }
         let mut progressed = false;
+        // (the drain is not about interleavings: detach calls in progress are completed at once)
+        w.flush_lazy();
         // the holder of the slots lock goes first
         let mut order: Vec<usize> = (0..n).collect();
         order.sort_by_key(|t| !matches!(w.ts[*t], TState::AtPoint("m.resize.forget") | TState::AtPoint("m.resize.grow")));
@@ -600,6 +603,7 @@ pub fn drain_and_probe(w: &mut World, rec: &mut Recorder) {
             }
         }
     }
+    w.flush_lazy();
     if w.hung {
         return;
     }
@@ -616,33 +620,43 @@ pub fn drain_and_probe(w: &mut World, rec: &mut Recorder) {
         rec.probe(w, -1, "poolgone", stranded);
         return;
     };
-    let max = pool.status().max_size;
-    let waker = Waker::from(Arc::new(Noop));
-    let mut cx = Context::from_waker(&waker);
-    let to = timeouts_for("nb", "none", "none");
-    let mut got: Vec<Object<Mgr>> = vec![];
-    let mut extra = String::from("-");
-    let limit = max.max(w.cfg.init_max) + 3;
-    for _ in 0..limit {
-        let mut f = Box::pin(pool.timeout_get(&to));
-        match f.as_mut().poll(&mut cx) {
-            Poll::Ready(Ok(o)) => got.push(o),
-            Poll::Ready(Err(e)) => {
-                extra = match e {
-                    deadpool::managed::PoolError::Timeout(deadpool::managed::TimeoutType::Wait) => "timeout_wait".into(),
-                    deadpool::managed::PoolError::Closed => "closed".into(),
-                    other => format!("{:?}", other).split('(').next().unwrap_or("other").to_lowercase(),
-                };
-                break;
-            }
-            Poll::Pending => {
-                extra = "pending".into();
-                break;
+    // (a panic of the pool in here - a poisoned slots mutex, say - is data like any other panic)
+    let probed = std::panic::catch_unwind(std::panic::AssertUnwindSafe(|| {
+        let max = pool.status().max_size;
+        let waker = Waker::from(Arc::new(Noop));
+        let mut cx = Context::from_waker(&waker);
+        let to = timeouts_for("nb", "none", "none");
+        let mut got: Vec<Object<Mgr>> = vec![];
+        let mut extra = String::from("-");
+        let limit = max.max(w.cfg.init_max) + 3;
+        for _ in 0..limit {
+            let mut f = Box::pin(pool.timeout_get(&to));
+            match f.as_mut().poll(&mut cx) {
+                Poll::Ready(Ok(o)) => got.push(o),
+                Poll::Ready(Err(e)) => {
+                    extra = match e {
+                        deadpool::managed::PoolError::Timeout(deadpool::managed::TimeoutType::Wait) => "timeout_wait".into(),
+                        deadpool::managed::PoolError::Closed => "closed".into(),
+                        other => format!("{:?}", other).split('(').next().unwrap_or("other").to_lowercase(),
+                    };
+                    break;
+                }
+                Poll::Pending => {
+                    extra = "pending".into();
+                    break;
+                }
             }
         }
-    }
+        (got, extra)
+    }));
+    let (got, extra) = match probed {
+        Ok(x) => x,
+        Err(_) => (vec![], String::from("panicked")),
+    };
     let ngot = got.len() as i64;
     rec.probe(w, ngot, &extra, stranded);
-    drop(got);
-    drop(pool);
+    let _ = std::panic::catch_unwind(std::panic::AssertUnwindSafe(move || {
+        drop(got);
+        drop(pool);
+    }));
 }
